@@ -283,7 +283,7 @@ class CovF64(Harness):
     """IEEE binary64 semantics of the covariance arithmetic: whatever the samples, rounding must not produce a negative
     variance or an asymmetric matrix (both are impossible for sums of products of deviations, in any summation order)"""
 
-    functions = (cov_from_samples,)
+    functions = (cov_from_samples, SampledData.error.fget)
     modules = CORR_MODULES
     xval = False
     fp = True
@@ -314,8 +314,10 @@ class CovF64(Harness):
         B = self.B
         with np.errstate(all="ignore"):
             cov = np.atleast_2d(cov_from_samples(x.copy()))
+            err = SampledData(conc_binning(B), x[0].copy(), x.copy()).error
         zero = 0.0 if self.wrong != "positive" else 2.0**-1000
         out = [Check("variance_%d_not_negative" % a, cond=(cov[a, a] >= zero)) for a in range(B)]
+        out += [Check("error_%d_is_a_number" % a, cond=(err[a] >= 0.0)) for a in range(B)]
         for a in range(B):
             for b in range(a + 1, B):
                 out.append(Check("symmetric_%d_%d" % (a, b), cond=(cov[a, b] == cov[b, a])))
